@@ -40,7 +40,7 @@ NPROC = int(os.environ.get("VERIF_NPROC", "16"))
 
 C13_FORMULAS = ["C13_NoPhantom", "C13_NoPhantomSkip", "C13_NoMissing", "C13_PublishAfterCommit", "C13_SeqMonotone"]
 C12_FORMULAS = ["C12_ReplayBinding", "C12_ReplayMatches", "C12_ReplayMatchesCanceledTasks", "C12_Prefix",
-                "C12_Snapshot", "C12_SnapshotData"]
+                "C12_Snapshot", "C12_SnapshotData", "C12_SnapshotWfTimes"]
 FORMULAS = {"C12": C12_FORMULAS, "C13": C13_FORMULAS}
 
 
@@ -343,7 +343,10 @@ class EvRun(Run):
 
     @staticmethod
     def _digest(state: dict) -> str:
-        return hashlib.sha256(json.dumps(state, sort_keys=True, default=str).encode()).hexdigest()[:16]
+        """Digest of everything the replayer rebuilt except the two workflow-level timestamps (they are
+        compared through the wfStart / wfEnd flags, formula C12_SnapshotWfTimes)."""
+        d = {k: v for k, v in state.items() if k not in ("start_time", "end_time")}
+        return hashlib.sha256(json.dumps(d, sort_keys=True, default=str).encode()).hexdigest()[:16]
 
     def observe_replay(self, as_of: int | None) -> dict:
         """Real EventReplayer, no snapshot store.  as_of=None: full rebuild."""
@@ -399,9 +402,301 @@ class EvRun(Run):
 def prog_header(prog: dict) -> dict:
     """What Events.tla needs to know about a program (carried by the init event of every trace)."""
     stages = [s for s in prog["stages"]]
-    return {"stages": [s["ref"] for s in stages],
+    return {"name": prog["name"], "stages": [s["ref"] for s in stages],
             "tasks": [t["name"] for s in stages for t in s["tasks"]],
             "stageOf": {t["name"]: s["ref"] for s in stages for t in s["tasks"]},
             "cof": [s["ref"] for s in stages if s["cof"]],
             "nofailp": [s["ref"] for s in stages if not s["failp"]],
             "top": [s["ref"] for s in stages if not s["parent"]]}
+
+
+# =================================================================================================
+# Drivers (each returns recorded traces of the REAL engine; none of them judges anything)
+# =================================================================================================
+def _expire_all(run: EvRun) -> None:
+    for row in run.rows():
+        if row["locked"]:
+            run.expire(row["qid"])
+
+
+def _observe(run: EvRun, observe: dict | None) -> None:
+    """C12 observations at quiescence: full rebuild, every prefix length, snapshots at some positions."""
+    if not observe:
+        return
+    run.observe_replay(None)
+    last = run.seen_seq
+    if observe.get("prefixes", True):
+        for n in range(0, last + 1):
+            run.observe_replay(n)
+    pos = observe.get("snapshots")
+    if pos == "all":
+        pos = list(range(1, last + 1))
+    elif pos == "some":
+        rng = random.Random(observe.get("seed", 0))
+        pos = sorted({1, max(1, last // 2), max(1, last - 1), last, rng.randint(1, max(1, last))}) if last else []
+    for ver, p in enumerate(pos or [], start=1):
+        ns = sorted({max(0, p - 1), p, min(last, p + 1), last})
+        run.observe_snapshot(p, [None] + ns, ver)
+
+
+def drive_fifo(prog: dict, faults: dict | None = None, observe: dict | None = None, sweeps: int = 1,
+               max_steps: int = 2500) -> dict:
+    """In-order run under the fault plan; after a simulated kill: restart, lock expiry, recovery sweep(s),
+    drain.  Ends with a `quiescent` event (and the C12 observations when asked)."""
+    faults = dict(faults or {})
+    run = EvRun(prog, "evfifo", faults)
+    try:
+        run.start()
+        if "crash_at" in faults:
+            run.crash_at = {faults["crash_at"]}
+        status = None
+        for _round in range(3):
+            crashed = run.run_protected(lambda: run.drain(max_steps))
+            if not crashed:
+                status = "quiescent" if not run.rows() else "stuck"
+                break
+            _expire_all(run)
+            for _ in range(sweeps):
+                run.sweep()
+        run.quiescent()
+        _observe(run, observe)
+        meta = {"kind": "fifo", "faults": faults, "drain": status, "observe": observe or {}, "sweeps": sweeps}
+        return run.as_trace(meta)
+    finally:
+        run.close()
+
+
+def drive_schedule(prog: dict, seed: int, p_withhold: float = 0.15, cancel_at: int = -1, max_steps: int = 700,
+                   observe: dict | None = None, faults: dict | None = None, p_sweep: float = 0.0,
+                   max_sweeps: int = 0) -> dict:
+    """One seeded random delivery schedule (any visible message next, acks withheld with probability
+    p_withhold and redelivered after a lock expiry, optional cancel request / recovery sweeps)."""
+    rng = random.Random(seed)
+    run = EvRun(prog, "evsched", faults)
+    try:
+        run.start()
+        step = sweeps = 0
+
+        def body():
+            nonlocal step, sweeps
+            while step < max_steps:
+                step += 1
+                if cancel_at == step:
+                    run.send_cancel()
+                rows = run.rows()
+                if not rows:
+                    break
+                vis = [r for r in rows if not r["locked"] and not r["delayed"] and r["att"] < r["max"]]
+                locked = [r for r in rows if r["locked"]]
+                if max_sweeps > sweeps and rng.random() < p_sweep:
+                    run.sweep()
+                    sweeps += 1
+                    continue
+                if locked and (not vis or rng.random() < 0.25):
+                    run.expire(rng.choice(locked)["qid"])
+                    continue
+                if vis:
+                    r = rng.choice(vis)
+                    run.deliver(r["qid"], ack=rng.random() >= p_withhold)
+                    continue
+                delayed = [r for r in rows if r["delayed"] and not r["locked"] and r["att"] < r["max"]]
+                if delayed:
+                    run.warp(min(delayed, key=lambda r: r["deliver_at"])["qid"])
+                    continue
+                if [r for r in rows if r["att"] >= r["max"]]:
+                    run.dlq_sweep()
+                    continue
+                break
+
+        for _round in range(3):
+            if not run.run_protected(body):
+                break
+            _expire_all(run)
+            run.sweep()
+        run.quiescent()
+        _observe(run, observe)
+        return run.as_trace({"kind": "schedule", "seed": seed, "steps": step, "observe": observe or {},
+                             "faults": faults or {},
+                             "opts": {"p_withhold": p_withhold, "cancel_at": cancel_at, "max_steps": max_steps,
+                                      "p_sweep": p_sweep, "max_sweeps": max_sweeps}})
+    finally:
+        run.close()
+
+
+def ev_job(spec: dict) -> list[dict]:
+    """Process-pool entry point (top-level, importable)."""
+    prog = spec.get("prog") or by_name(spec["name"])
+    out = []
+    if spec["kind"] == "fifo":
+        for f in spec.get("faults") or [None]:
+            out.append(drive_fifo(prog, f, spec.get("observe"), spec.get("sweeps", 1)))
+    elif spec["kind"] == "schedule":
+        for seed in spec["seeds"]:
+            out.append(drive_schedule(prog, seed, observe=spec.get("observe"), **spec.get("opts", {})))
+    else:
+        raise ValueError(spec["kind"])
+    return out
+
+
+def run_jobs(jobs: list[dict]) -> list[dict]:
+    if not jobs:
+        return []
+    out: list[dict] = []
+    with cf.ProcessPoolExecutor(max_workers=NPROC, mp_context=mp.get_context("spawn")) as ex:
+        for traces in ex.map(ev_job, jobs, chunksize=1):
+            out.extend(traces)
+    return out
+
+
+# =================================================================================================
+# TLC: trace validation
+# =================================================================================================
+TRACE_CONSTS = {"Workers": '{"w1"}', "MaxCrashes": 0, "MaxRollbacks": 0, "MaxForce": 0, "MaxCancels": 0, "MaxSkips": 0,
+                "TaskOutcomes": "{}", "Defect_SkipEventBeforeCommit": "TRUE", "Defect_ErrorPathNoEvent": "TRUE",
+                "Defect_NoTaskCancelEvent": "TRUE"}
+
+
+def cfg_consts(c: dict) -> str:
+    return "CONSTANTS\n" + "".join(f"  {k} = {v}\n" for k, v in c.items())
+
+
+class Verdict:
+    def __init__(self) -> None:
+        self.ntraces = self.accepted = self.events = self.states = 0
+        self.rejected: list[dict] = []     # {trace, at, event, prev}
+        self.failed: list[dict] = []       # {trace, at, formula}
+        self.wall = 0.0
+        self.machinery: str | None = None
+
+
+def _parse(out: str, n: int):
+    m = re.search(r'<<\s*"PREFIX"\s*,\s*<<([^>]*)>>\s*>>', out)
+    pref = [int(x) for x in re.findall(r"\d+", m.group(1))] if m else None
+    i = out.find('"FAILED"')
+    failed = None
+    if i >= 0:
+        seg = out[i:]
+        j = seg.find("Model checking completed")
+        seg = seg[:j] if j > 0 else seg
+        failed = [(int(a), int(b), c) for a, b, c in re.findall(r'<<\s*(\d+),\s*(\d+),\s*"(\w+)"\s*>>', seg)]
+    return pref, failed
+
+
+def validate_batch(traces: list[dict], props: list[str], tag: str = "ev", timeout: int = 1500) -> Verdict:
+    """One TLC invocation (Trace_Events, -workers 1) over a batch of traces of any programs."""
+    v = Verdict()
+    v.ntraces = len(traces)
+    if not traces:
+        return v
+    rd = tlc.new_rundir("tr-" + tag)
+    try:
+        tf = os.path.join(rd, "traces.json")
+        with open(tf, "w") as fh:
+            json.dump({"props": list(props), "traces": [{"events": t["events"]} for t in traces]}, fh)
+        cfg = cfg_consts(TRACE_CONSTS) + "INIT TraceInit\nNEXT TraceNext\nCONSTRAINT Progress\nPOSTCONDITION Accepted\n" \
+                                         "CHECK_DEADLOCK FALSE\n"
+        r = tlc.run_tlc(rd, "Trace_Events", cfg, workers=1, env={"TRACE_FILE": tf}, timeout=timeout)
+        v.wall = r.wall
+        v.states = r.distinct
+        v.events = sum(len(t["events"]) for t in traces)
+        pref, failed = _parse(r.out, len(traces))
+        if pref is None or len(pref) != len(traces) or failed is None or r.errors:
+            v.machinery = "TLC did not complete the batch:\n" + "\n".join(r.errors[:5]) + "\n" + r.out[-3000:]
+            return v
+        for i, (p, t) in enumerate(zip(pref, traces)):
+            n = len(t["events"])
+            if p == n + 1:
+                v.accepted += 1
+            else:
+                v.rejected.append({"trace": i, "at": p, "len": n, "event": t["events"][p - 1] if p - 1 < n else None,
+                                   "prev": t["events"][p - 2] if p >= 2 else None})
+        for (ti, pos, name) in failed:
+            v.failed.append({"trace": ti - 1, "at": pos, "formula": name})
+        return v
+    finally:
+        shutil.rmtree(rd, ignore_errors=True)
+
+
+# =================================================================================================
+# TLC: model checking of Events.tla on its own
+# =================================================================================================
+def mc_program(name: str, shape: dict[str, list[str]], cof=(), nofailp=()) -> str:
+    """Literal TLA+ record for a small program: shape = {stage: [task names]}."""
+    stages = list(shape)
+    tasks = [t for s in stages for t in shape[s]]
+    so = " @@ ".join(f'"{t}" :> "{s}"' for s in stages for t in shape[s]) or "<<>>"
+
+    def tset(xs):
+        return "{" + ", ".join(f'"{x}"' for x in xs) + "}"
+
+    return (f'[name |-> "{name}", stages |-> {tset(stages)}, tasks |-> {tset(tasks)}, '
+            f'taskSeq |-> <<{", ".join(chr(34) + t + chr(34) for t in tasks)}>>, stageOf |-> ({so}), '
+            f'cof |-> {tset(cof)}, nofailp |-> {tset(nofailp)}, top |-> {tset(stages)}]')
+
+
+MC_PROGRAMS = {
+    "s1t1": mc_program("s1t1", {"a": ["a.1"]}),
+    "s1t2": mc_program("s1t2", {"a": ["a.1", "a.2"]}),
+    "s2t11": mc_program("s2t11", {"a": ["a.1"], "b": ["b.1"]}),
+    "s2t21": mc_program("s2t21", {"a": ["a.1", "a.2"], "b": ["b.1"]}),
+    "s2cof": mc_program("s2cof", {"a": ["a.1"], "b": ["b.1"]}, cof=["a"]),
+}
+MC_ACTIONS = ["Begin", "Return", "Raise", "StartWorkflowCommit", "StartStageClaim", "StartStagePlan",
+              "StartTaskCommit", "CancelStageCommit", "ForceCommit", "AppendInTxn", "RecordOwn", "Publish",
+              "CompleteTaskCommit", "CompleteStageCommit", "CompleteStageErrorCommit", "SkipStageCommit",
+              "CompleteWorkflowCommit", "Rollback", "Crash"]
+MC_VIOL_RE = re.compile(r'<<\s*"VIOL",\s*"(\w+)",\s*"(\w*)",\s*"((?:[^"\\]|\\.)*)"\s*>>', re.S)
+
+
+class MCResult:
+    def __init__(self, cfg: dict) -> None:
+        self.config = cfg
+        self.generated = self.distinct = self.depth = 0
+        self.wall = 0.0
+        self.viols: list[dict] = []
+        self.viol_counts: dict[str, int] = {}
+        self.coverage: dict[str, int] = {}
+        self.machinery: str | None = None
+
+
+def model_check(cfg: dict, props: list[str], workers: int = 4, timeout: int = 1400, coverage: bool = True) -> MCResult:
+    """cfg: {name, programs[], consts{}, depth}.  Non-halting: failures are printed and pruned."""
+    res = MCResult(cfg)
+    rd = tlc.new_rundir("mcev-" + cfg["name"])
+    try:
+        with open(os.path.join(rd, "MC_EventsParams.tla"), "w") as fh:
+            fh.write("---- MODULE MC_EventsParams ----\nEXTENDS TLC\nPrograms == {" + ",\n  ".join(MC_PROGRAMS[p] for p in cfg["programs"])
+                     + "}\nCheckProps == {" + ", ".join(f'"{p}"' for p in ["TypeOK"] + list(props)) + "}\n"
+                     + f"MaxDepth == {cfg.get('depth', 300)}\n====\n")
+        consts = {"Workers": '{"w1"}', "MaxCrashes": 0, "MaxRollbacks": 0, "MaxForce": 0, "MaxCancels": 0, "MaxSkips": 0,
+                  "TaskOutcomes": '{"SUCCEEDED", "TERMINAL"}', "Defect_SkipEventBeforeCommit": "TRUE",
+                  "Defect_ErrorPathNoEvent": "TRUE", "Defect_NoTaskCancelEvent": "TRUE"}
+        consts.update(cfg["consts"])
+        text = cfg_consts(consts) + "INIT MCInit\nNEXT MCNext\nVIEW MCView\nCONSTRAINT NoViolation\nCONSTRAINT DepthBound\n" \
+                                    "CHECK_DEADLOCK FALSE\n"
+        r = tlc.run_tlc(rd, "MC_Events", text, workers=workers, timeout=timeout,
+                        extra=["-coverage", "1"] if coverage else [])
+        res.wall = r.wall
+        res.generated, res.distinct, res.depth = r.generated, r.distinct, r.depth
+        seen = set()
+        for m in re.finditer(r'<<\s*"V",\s*"(\w+)",\s*"(\w*)"\s*>>', r.out):
+            res.viol_counts[m.group(1)] = res.viol_counts.get(m.group(1), 0) + 1
+        for m in MC_VIOL_RE.finditer(r.out):
+            formula, actn, js = m.group(1), m.group(2), m.group(3)
+            key = (formula, actn)
+            if key in seen:
+                continue
+            seen.add(key)
+            try:
+                state = json.loads(js.encode().decode("unicode_escape"))
+            except Exception:
+                state = {"raw": js[:800]}
+            res.viols.append({"formula": formula, "act": actn, "state": state})
+        if coverage:
+            cov = r.coverage()
+            res.coverage = {a: cov.get(a, 0) for a in MC_ACTIONS}
+        if r.rc != 0 or r.errors or not r.distinct:
+            res.machinery = "\n".join(r.errors[:5]) + "\n" + r.out[-2500:]
+        return res
+    finally:
+        shutil.rmtree(rd, ignore_errors=True)
